@@ -191,6 +191,10 @@ class Index:
         self.modules[relmod] = Module(relmod, path, rel, src)
     if len(self.modules) < 40:
       raise AnalysisError(f"only {len(self.modules)} modules found under {pkgdir}; expected >= 40")
+    self.canon_log: typing.List[str] = []
+    if not os.environ.get("TTVERIF_NO_CANON"):
+      from . import canon
+      self.canon_log = canon.canonicalise(self.modules)
 
   def mod(self, name: str) -> Module:
     m = self.modules.get(name)
